@@ -22,6 +22,8 @@ pub enum Op {
     RequestMore,
     Advance(usize),
     AdvanceWithBuf(usize),
+    /// the unsafe variant, used per its contract (n <= buf_len())
+    AdvanceUnchecked(usize),
     SetMark,
     SetMarkTo(usize),
     SetChunk(usize),
@@ -463,6 +465,14 @@ impl Sim {
                 let calls = self.sync();
                 self.discipline(&calls, None, before_len, was_ended, false, &mut p);
             }
+            Op::AdvanceUnchecked(n) => {
+                let n = (*n).min(self.r.buf_len());
+                // SAFETY: n <= buf_len(), which is the documented contract
+                sut(|| unsafe { self.r.advance_unchecked(n) });
+                self.cursor += n;
+                let calls = self.sync();
+                self.discipline(&calls, None, before_len, was_ended, false, &mut p);
+            }
             Op::AdvanceWithBuf(n) => {
                 let n = (*n).min(self.r.buf_len());
                 let got = sut(|| self.r.advance_with_buf(n).to_vec());
@@ -602,10 +612,10 @@ pub fn gen_op(rng: &mut Rng, sim: &Sim, hostile: bool) -> Op {
                 3 => rng.usize(4).min(blen),
                 _ => (2 * chunk + 1 + rng.usize(8)).min(blen),
             };
-            if rng.chance(1, 3) {
-                Op::AdvanceWithBuf(n)
-            } else {
-                Op::Advance(n)
+            match rng.below(6) {
+                0 | 1 => Op::AdvanceWithBuf(n),
+                2 => Op::AdvanceUnchecked(n),
+                _ => Op::Advance(n),
             }
         }
         67..=76 => Op::SetMark,
